@@ -3,8 +3,10 @@
 
   py_grammar  Hypothesis grammar of standard-compliant documents (arbitrary inter-token whitespace, every escape incl. \\/ and
               \\u0000..\\u00ff in both hex cases, raw ASCII 0x20..0x7F, number forms -0, 0.5, 1e5, 1E+2, 5e-1, 1.25E-3, integers
-              up to the int64 boundaries, integer parts of 1..25 digits for non-integers, exponents within double range, unique
-              keys, empty containers anywhere, occasional nesting up to 500). For the three entry points x {default, strict}:
+              up to the int64 boundaries, integer parts of 1..25 digits for non-integers, exponents within double range,
+              un-normalised mantissas 1e-36..1e38 whose exponent alone runs to +-327 while the value stays within
+              1e-290..1e291, unique keys, empty containers anywhere, occasional nesting up to 500). For the three entry points
+              x {default, strict}:
                 rejects-standard-document:<mode>   phosg throws
                 exception-type:<type>              ... something other than parse_error / out_of_range
                 value:<class>:<mode>               value differs from json.loads (ints exact, other numbers 1e-9 relative)
@@ -158,7 +160,31 @@ def int_token(draw):
 
 
 @st.composite
+def unnormalised_num(draw):
+    """JSON does not require 1 <= mantissa < 10: 0.001e310 (= 1e307) or 12345678901234567890e-325 (= 1.2e-306) lie within double
+    range although the exponent alone does not. At most 40 digits, a 3-digit exponent, value within 1e-290..1e291."""
+    s = "-" if draw(st.integers(0, 2)) == 0 else ""
+    if draw(st.booleans()):
+        nd = draw(st.integers(2, 38))
+        s += str(draw(st.integers(1, 9))) + "".join(str(draw(st.integers(0, 9))) for _ in range(nd - 1))
+        mag = nd - 1
+        if draw(st.integers(0, 2)) == 0:
+            s += "." + "".join(str(draw(st.integers(0, 9))) for _ in range(draw(st.integers(1, 2))))
+    else:
+        z = draw(st.integers(0, 35))
+        s += "0." + "0" * z + str(draw(st.integers(1, 9))) + "".join(str(draw(st.integers(0, 9))) for _ in range(draw(st.integers(0, 3))))
+        mag = -z - 1
+    lo, hi = -290 - mag, 290 - mag
+    e = draw(st.one_of(st.integers(lo, min(hi, lo + 44)), st.integers(max(lo, hi - 44), hi), st.integers(-mag - 3, -mag + 3), st.integers(lo, hi)))
+    s += draw(st.sampled_from("eE"))
+    s += "-" if e < 0 else draw(st.sampled_from(["", "+"]))
+    return ["num", s + str(abs(e))]
+
+
+@st.composite
 def num_token(draw):
+    if draw(st.integers(0, 5)) == 0:
+        return draw(unnormalised_num())
     if draw(st.integers(0, 2)) == 0:
         return ["num", draw(st.sampled_from(_SPECIAL_NUMS))]
     s = "-" if draw(st.integers(0, 2)) == 0 else ""
